@@ -589,7 +589,7 @@ func c06Image(p *Prog, r *Report) {
 		ipkg + ".addRootDirectoryToChainLayers": {"os.Mkdir": true, "os.MkdirAll": true},
 	}
 	for _, fn := range p.FuncsIn(ipkg) {
-		key := fnKey(fn)
+		key := tableKey(allowed, fn)
 		forEachInstr(fn, func(_ *ssa.BasicBlock, _ int, in ssa.Instruction) {
 			c := callOf(in)
 			if c == nil {
